@@ -226,10 +226,11 @@ def contract_call(ex, callee: Spec, args, kwargs, st, text):
         cur = nxt
     old = cur.snapshot()
     cur.havoc(callee.modifies)
-    for g in callee.ghost_modifies:
-        if g in cur.ghost:
-            cur.ghost[g] = cur.fresh("G." + g, cur.ghost[g].sort())
     result = callee.result_value(cur, a)
+    for g, term in (callee.ghost_update(old, cur, a, result) or {}).items():
+        fresh = cur.fresh("G." + g, term.sort())
+        cur.ghost[g] = fresh
+        cur.assume(fresh == term)
     for cl in callee.post(old, cur, a, result):
         cur.assume(cl.z)
     out.append(Res("val", result, cur))
